@@ -41,6 +41,38 @@ fn live() -> isize {
     LIVE.load(std::sync::atomic::Ordering::Relaxed)
 }
 
+// ---------------------------------------------------------------- watchdog (C09: a call must return)
+// every worker announces the case it is running; a monitor thread ends the process with status 3 and a `HANG <case>` line
+// on stderr when one case runs longer than the deadline (VERIF_CASE_DEADLINE seconds, default 60).  The orchestration then
+// reports that case and re-runs the others without it.  Workers are NOT replaced per case: histories per thread stay as they are.
+static WATCH: std::sync::Mutex<Vec<(std::thread::ThreadId, std::time::Instant, String)>> = std::sync::Mutex::new(Vec::new());
+fn watched<T>(line: &str, f: impl FnOnce() -> T) -> T {
+    let me = std::thread::current().id();
+    WATCH.lock().unwrap().push((me, std::time::Instant::now(), line.to_string()));
+    let r = f();
+    WATCH.lock().unwrap().retain(|(t, _, _)| *t != me);
+    r
+}
+fn start_watchdog() {
+    let limit = std::env::var("VERIF_CASE_DEADLINE").ok().and_then(|s| s.parse::<u64>().ok()).unwrap_or(60);
+    std::thread::spawn(move || loop {
+        std::thread::sleep(std::time::Duration::from_millis(500));
+        let hung: Vec<String> = WATCH
+            .lock()
+            .unwrap()
+            .iter()
+            .filter(|(_, t, _)| t.elapsed().as_secs() >= limit)
+            .map(|(_, _, l)| l.clone())
+            .collect();
+        if !hung.is_empty() {
+            for l in hung {
+                eprintln!("HANG {}", l);
+            }
+            std::process::exit(3);
+        }
+    });
+}
+
 fn hex(b: &[u8]) -> String {
     if b.is_empty() {
         return "-".into();
@@ -80,16 +112,44 @@ fn mk_mutator(name: &str) -> Box<dyn Mutator> {
 
 fn mk_generator(m: &HashMap<String, String>) -> Generator {
     let v = Version::try_from(m["v"].parse::<usize>().unwrap()).unwrap();
-    let mut g = Generator::new(v)
-        .with_opcode_range(m["min"].parse().unwrap(), m["max"].parse().unwrap())
-        .with_unsafe_mutations(m["unsafe"] == "1")
-        .with_ext_opcodes(m["ext"] == "1")
-        .with_buffer_opcodes(m["buf"] == "1");
+    let (mn, mx): (usize, usize) = (m["min"].parse().unwrap(), m["max"].parse().unwrap());
+    let rate = f64::from_bits(u64::from_str_radix(&m["rate"], 16).unwrap());
+    // `api=1`: the other spelling of the same configuration (with_min_opcodes / with_max_opcodes, one with_mutator per
+    // mutator, with_mutation_rate for rates inside [0, 1], flags set before the range)
+    let alt = m.get("api").map(|s| s == "1").unwrap_or(false);
+    let mut g = if alt {
+        Generator::new(v)
+            .with_buffer_opcodes(m["buf"] == "1")
+            .with_ext_opcodes(m["ext"] == "1")
+            .with_unsafe_mutations(m["unsafe"] == "1")
+            .with_max_opcodes(mx)
+            .with_min_opcodes(mn)
+    } else {
+        Generator::new(v)
+            .with_opcode_range(mn, mx)
+            .with_unsafe_mutations(m["unsafe"] == "1")
+            .with_ext_opcodes(m["ext"] == "1")
+            .with_buffer_opcodes(m["buf"] == "1")
+    };
     if m["muts"] != "-" {
-        g = g.with_mutators(m["muts"].split(',').map(mk_mutator).collect());
+        if alt {
+            for name in m["muts"].split(',') {
+                g = g.with_mutator(mk_mutator(name));
+            }
+        } else {
+            g = g.with_mutators(m["muts"].split(',').map(mk_mutator).collect());
+        }
     }
-    // the field is public: any f64 bit pattern is a reachable configuration
-    g.mutation_rate = f64::from_bits(u64::from_str_radix(&m["rate"], 16).unwrap());
+    // `bufsz=n`: with_buffer_size(n) - documented as the PRNG buffer size, read by nothing: no output may depend on it
+    if let Some(b) = m.get("bufsz") {
+        g = g.with_buffer_size(b.parse().unwrap());
+    }
+    if alt && (0.0..=1.0).contains(&rate) {
+        g = g.with_mutation_rate(rate);
+    } else {
+        // the field is public: any f64 bit pattern is a reachable configuration
+        g.mutation_rate = rate;
+    }
     g
 }
 
@@ -161,7 +221,7 @@ fn cmd_trace(path: &str, threads: usize) {
                     .spawn_scoped(s, move || {
                         let mut v = Vec::new();
                         for l in c {
-                            v.extend(trace_case(l));
+                            v.extend(watched(l, || trace_case(l)));
                         }
                         v
                     })
@@ -289,6 +349,67 @@ fn adapt_case(line: &str) -> Vec<String> {
     out
 }
 
+
+// ---------------------------------------------------------------- S8: one step from every small state
+/// the state is built by hand (kinds of the stack slots bottom to top, memo entries), then (a) the candidate set,
+/// (b) for every listed opcode - candidate or not - one emission on the given fuzzer bytes from a fresh copy of that
+/// state: appended bytes, simulated state afterwards, bytes left; (c) the collapse tail + STOP from that state
+fn s8_case(line: &str) -> Vec<String> {
+    let m = kv(line);
+    let mut out = vec![format!("CASE {}", line)];
+    let data = unhex(m["src"].strip_prefix("bytes:").unwrap());
+    let build = || -> Generator {
+        let mut g = mk_generator(&m);
+        let empty: [u8; 0] = [];
+        let mut u = arbitrary::Unstructured::new(&empty);
+        let mut src = GenerationSource::Arbitrary(&mut u);
+        pf::verif::begin(&mut g, &mut src);
+        if m["stack"] != "-" {
+            for k in m["stack"].chars() {
+                assert!(pf::verif::push_kind(&mut g, k), "kind {}", k);
+            }
+        }
+        if m["memo"] != "-" {
+            for e in m["memo"].split(',') {
+                let (i, k) = e.split_once(':').unwrap();
+                assert!(pf::verif::memo_kind(&mut g, i.parse().unwrap(), k.chars().next().unwrap()));
+            }
+        }
+        g
+    };
+    {
+        let g0 = build();
+        let valid = pf::verif::valid_opcodes(&g0);
+        out.push(format!("VALID {}", if valid.is_empty() { "-".to_string() } else { valid.join(",") }));
+    }
+    if m["ops"] != "-" {
+        for op in m["ops"].split(',') {
+            let mut g = build();
+            let r = catch_unwind(AssertUnwindSafe(|| {
+                let mut u = arbitrary::Unstructured::new(&data);
+                let mut src = GenerationSource::Arbitrary(&mut u);
+                let r = pf::verif::emit_one(&mut g, op, &mut src);
+                (r, src_pos(&src))
+            }));
+            match r {
+                Ok((Ok(bytes), left)) => out.push(format!("EMIT {} ok {} {} left={}", op, hex(&bytes), pf::verif::state(&g), left)),
+                Ok((Err(e), _)) => out.push(format!("EMIT {} err {}", op, e.replace('\n', " ").replace(' ', "_"))),
+                Err(e) => out.push(format!("EMIT {} panic {}", op, panic_msg(e).replace('\n', " ").replace(' ', "_"))),
+            }
+        }
+    }
+    {
+        let mut g = build();
+        let r = catch_unwind(AssertUnwindSafe(|| pf::verif::finish(&mut g)));
+        match r {
+            Ok(bytes) => out.push(format!("FINISH ok {} {}", hex(&bytes), pf::verif::state(&g))),
+            Err(e) => out.push(format!("FINISH panic {}", panic_msg(e).replace('\n', " ").replace(' ', "_"))),
+        }
+    }
+    out.push("END".into());
+    out
+}
+
 // ---------------------------------------------------------------- S5: call histories on one generator
 fn hist_case(line: &str) -> Vec<String> {
     let m = kv(line);
@@ -339,7 +460,7 @@ fn cmd_results(path: &str, threads: usize) {
                             .map(|l| {
                                 let m = kv(l);
                                 let mut g = mk_generator(&m);
-                                format!("CASE {}\n{}\nEND", l, run_src(&mut g, &m["src"]))
+                                format!("CASE {}\n{}\nEND", l, watched(l, || run_src(&mut g, &m["src"])))
                             })
                             .collect::<Vec<String>>()
                     })
@@ -405,7 +526,7 @@ fn cmd_one(line: &str) {
             move || {
                 let m = kv(&line);
                 let mut g = mk_generator(&m);
-                println!("CASE {}\n{}\nEND", line, run_src(&mut g, &m["src"]));
+                println!("CASE {}\n{}\nEND", line, watched(&line, || run_src(&mut g, &m["src"])));
             }
         })
         .unwrap();
@@ -456,6 +577,34 @@ fn cmd_deep(v: usize, n: usize, stack_kb: usize) {
         let t1 = out.iter().filter(|&&b| b == 0x85).count();
         drop(g);
         println!("DEEP-OK v={} n={} tuple1={} len={}", v, n, t1, out.len());
+    };
+    if stack_kb == 0 {
+        run();
+    } else {
+        std::thread::Builder::new().stack_size(stack_kb << 10).spawn(run).unwrap().join().unwrap();
+    }
+}
+
+/// C09, native stack: run the cases of a file (directed paths that nest objects deeply at chosen positions) on a thread
+/// with a stack of `stack_kb` KiB (0 = the main thread): generation AND teardown of the generator
+fn cmd_deepcase(path: &str, stack_kb: usize) {
+    let lines: Vec<String> = std::io::BufReader::new(std::fs::File::open(path).unwrap())
+        .lines()
+        .map(|l| l.unwrap())
+        .filter(|l| !l.trim().is_empty() && !l.starts_with('#'))
+        .collect();
+    let run = move || {
+        for l in &lines {
+            let m = kv(l);
+            let r = watched(l, || {
+                let mut g = mk_generator(&m);
+                let r = run_src(&mut g, &m["src"]);
+                drop(g);
+                r
+            });
+            let short: String = r.chars().take(60).collect();
+            println!("DEEP-OK {} {}", m["id"], short);
+        }
     };
     if stack_kb == 0 {
         run();
@@ -597,7 +746,7 @@ fn cmd_lines(path: &str, f: fn(&str) -> Vec<String>) {
         if l.trim().is_empty() || l.starts_with('#') {
             continue;
         }
-        for o in f(&l) {
+        for o in watched(&l, || f(&l)) {
             writeln!(w, "{}", o).unwrap();
         }
     }
@@ -613,6 +762,7 @@ fn cmd_words(seed: u64, n: usize) {
 
 fn main() {
     std::panic::set_hook(Box::new(|_| {}));
+    start_watchdog();
     let a: Vec<String> = std::env::args().collect();
     match a.get(1).map(|s| s.as_str()) {
         Some("trace") => cmd_trace(&a[2], a.get(3).map(|s| s.parse().unwrap()).unwrap_or(16)),
@@ -623,6 +773,10 @@ fn main() {
             let _ = std::panic::take_hook();
             cmd_deep(a[2].parse().unwrap(), a[3].parse().unwrap(), a[4].parse().unwrap())
         }
+        Some("deepcase") => {
+            let _ = std::panic::take_hook();
+            cmd_deepcase(&a[2], a[3].parse().unwrap())
+        }
         Some("census") => cmd_census(a[2].parse().unwrap(), a[3] == "1", a[4] == "1"),
         Some("leak") => {
             COUNTING.store(true, std::sync::atomic::Ordering::Relaxed);
@@ -630,6 +784,7 @@ fn main() {
         }
         Some("adapt") => cmd_lines(&a[2], adapt_case),
         Some("hist") => cmd_lines(&a[2], hist_case),
+        Some("s8") => cmd_lines(&a[2], s8_case),
         Some("words") => cmd_words(a[2].parse().unwrap(), a[3].parse().unwrap()),
         _ => {
             eprintln!("usage: pf-harness trace <cases> [threads] | adapt <cases> | hist <cases> | words <seed> <n>");
